@@ -28,7 +28,7 @@ def sqf_tree(t):
     if k == "n":
         return t.get("txt", str(t["n"]))
     if k == "s":
-        return '"' + t["s"].replace('"', '""') + '"'
+        return t.get("txt") or ('"' + t["s"].replace('"', '""') + '"')
     if k == "b":
         return "true" if t["b"] else "false"
     if k == "nil":
@@ -70,6 +70,8 @@ def want(t):
         return {"t": "c", "c": t["print"]}
     if k == "n":
         return {"t": "n", "n": t["n"]}
+    if k == "s":
+        return {"t": "s", "s": t["s"]}
     return t
 
 
@@ -98,6 +100,9 @@ def value_pools(rng, tier):
             H(), H(), H((N(1), N(2)), (N(3), N(4))), H((N(3), N(4)), (N(1), N(2))), H((S("a"), N(1))), H((S("A"), N(1))),
             H((A(N(0)), N(1))), H((N(1), A(N(2)))), H((N(1), A(N(2)))),
             H((N(1), N(2)), (N(3), N(4)), (N(5), N(6)), (N(7), N(8))), H((N(7), N(8)), (N(5), N(6)), (N(3), N(4)), (N(1), N(2)))]
+    # strings with an embedded character 0: compared (and hashed) over their whole length
+    nul = lambda codes: {"t": "s", "s": "".join(chr(c) for c in codes), "txt": "(toString %s)" % json.dumps(codes)}
+    base += [nul([65, 0, 66]), nul([65, 0, 67]), nul([65, 0, 66]), S("A"), A(nul([65, 0, 66])), A(nul([65, 0, 67])), H((nul([65, 0, 66]), N(1))), H((nul([65, 0, 67]), N(1)))]
     # neighbouring single-precision numbers (one unit in the last place apart) are different numbers
     near = [N(8388608), N(8388609), N(8388610), N(16777216), N(16777218), N(16777220), N(-16777216), N(-16777218)]
     base += near + [A(near[0]), A(near[1]), A(N(1), near[3]), A(N(1), near[4]), H((near[0], N(1))), H((near[1], N(1))), H((N(1), near[3])), H((N(1), near[4]))]
